@@ -1,0 +1,7 @@
+//go:build !verif
+
+package mongodb
+
+import "go.mongodb.org/mongo-driver/mongo/options"
+
+func applySimClientOptions(*options.ClientOptions) {}
